@@ -75,6 +75,19 @@ def run(tier):
         if gg is gn:               # NULL profile: a WHERE over a function of NULL is an open outcome - no channel expectation there
             sc["chan"] = False; sc["meta"]["chan"] = 0
         scen.append(sc)
+    # WHERE over a column that sometimes holds a numeric-looking string or a boolean: an ordering comparison with a number then
+    # fails and rejects the row (left to right), whatever path evaluates it
+    gm = Gen(rng, nulls=False, cases=False, nots=False, explicit_null=False, mixedkinds=True, ordonly=True, strs=False, paths=False, fns=False, negs=False)
+    for i in range(150 if quick else 2000):
+        gm.in_where = True
+        w = gm.flatchain(rng.choice([1, 1, 2, 3]))
+        if w["t"] in ("and", "or") and i % 2:      # pure AND / pure OR chains are the fast-path shapes; mixed ones go to the general evaluator
+            pass
+        gm.in_where = False
+        meta = {"fam": "direct", "star": 0, "chan": 0, "sel": [{"al": "id", "e": col("id")}], "where": w, "profile": "where_mixedkind"}
+        sc = {"meta": meta, "sql": "SELECT id FROM stream WHERE " + sql(w), "rows": [gm.row(j + 1) for j in range(rng.choice([5, 8]))], "chan": False}
+        if i % 2: sc["mode"] = "sync"
+        scen.append(sc)
     # ordering: rows handed in without waiting; sink and channel must see the results in emission order
     for i in range(60 if quick else 600):
         scen.append(mk(rng, g, i % 5 == 0, [None, "flat"][i % 2], rng.choice([20, 40]), "emit", True))
